@@ -37,6 +37,7 @@ pub fn modes_for(kind: Kind, arg_len: usize) -> Vec<(&'static str, FaultMode)> {
         Kind::Fsync => vec![("EIO", FaultMode::Errno(libc::EIO))],
         Kind::Fallocate => vec![("ENOSPC", FaultMode::Errno(libc::ENOSPC)), ("EFBIG", FaultMode::Errno(libc::EFBIG))],
         Kind::Lseek => vec![("EIO", FaultMode::Errno(libc::EIO))],
+        Kind::Stat => vec![("EIO", FaultMode::Errno(libc::EIO))],
         Kind::Mmap => vec![("ENOMEM", FaultMode::Errno(libc::ENOMEM))],
         Kind::Ftruncate => vec![("EFBIG", FaultMode::Errno(libc::EFBIG))],
         _ => vec![],
@@ -275,7 +276,7 @@ fn arg_len_of(script: &Script, path: &str, step: usize, call: usize) -> usize {
     // map: k-th tracked call -> event; events log only successful writes in order
     let mut idx = 0usize;
     for e in ev {
-        let counted = matches!(e, iosim::IoEvent::Write { .. } | iosim::IoEvent::Fsync | iosim::IoEvent::Fallocate { .. } | iosim::IoEvent::Lseek | iosim::IoEvent::Mmap { .. } | iosim::IoEvent::Ftruncate { .. } | iosim::IoEvent::Flock { .. } | iosim::IoEvent::Open { .. } | iosim::IoEvent::Close);
+        let counted = matches!(e, iosim::IoEvent::Write { .. } | iosim::IoEvent::Fsync | iosim::IoEvent::Fallocate { .. } | iosim::IoEvent::Lseek | iosim::IoEvent::Stat | iosim::IoEvent::Mmap { .. } | iosim::IoEvent::Ftruncate { .. } | iosim::IoEvent::Flock { .. } | iosim::IoEvent::Open { .. } | iosim::IoEvent::Close);
         if !counted {
             continue;
         }
